@@ -970,6 +970,618 @@ fn gen_seq(rng: &mut Rng, class: &'static str, thorough: bool) -> String {
     format!("S {class} lim={limit}; {}", g.ops.join("; "))
 }
 
+
+// ------------------------------------------------------------------------------------------
+// process/signal leg: `P <class>; op; op; fork[op, op, …]; …`
+//
+// Operations (in the top-level process P0 or, inside `fork[…]`, in a forked child):
+//   blk/unb/set <A+B|->   sigprocmask SIG_BLOCK / SIG_UNBLOCK / SIG_SETMASK          -> ok
+//   act <S> d|i|c         sigaction(S, default | ignore | catch)                     -> =<old d|i|c>
+//   get <S>               current disposition                                         -> =d|i|c
+//   raise <S>, kself <S>  raise(S), kill(getpid(), S)                                 -> ok
+//   kgrp <S>, kpar <S>    kill(0, S) (own process group = P0 and its child), kill(getppid(), S)
+//   pend, mask, caught    sigpending, current mask, caught_signals() (as a set)       -> =A+B | =-
+//   exit <N>              (child only)
+//   fork[…]               fork; the child runs the operations and exits (0 unless `exit N`); the parent
+//                         waits for it                                          -> {tok,tok,…}x<N> | …}s<SIG>
+// An operation that does not return (the process is terminated by the signal) leaves no token; a
+// terminated P0 ends the observation with `DIED:s<SIG>`, otherwise the final state of P0 follows `|`.
+
+const PSIGS: [&str; 7] = ["HUP", "INT", "USR1", "USR2", "TERM", "CHLD", "URG"];
+
+fn signum<S: yash_env::system::Signals>(name: &str) -> Option<yash_env::signal::Number> {
+    Some(match name {
+        "HUP" => S::SIGHUP,
+        "INT" => S::SIGINT,
+        "USR1" => S::SIGUSR1,
+        "USR2" => S::SIGUSR2,
+        "TERM" => S::SIGTERM,
+        "CHLD" => S::SIGCHLD,
+        "URG" => S::SIGURG,
+        _ => return None,
+    })
+}
+
+fn signame<S: yash_env::system::Signals>(n: yash_env::signal::Number) -> String {
+    for name in PSIGS {
+        if signum::<S>(name) == Some(n) {
+            return name.to_string();
+        }
+    }
+    format!("{}", n.as_raw())
+}
+
+fn show_names(mut v: Vec<&'static str>) -> String {
+    v.sort_by_key(|n| PSIGS.iter().position(|x| x == n));
+    v.dedup();
+    if v.is_empty() { "-".to_string() } else { v.join("+") }
+}
+
+fn show_disp(d: yash_env::system::Disposition) -> &'static str {
+    match d {
+        yash_env::system::Disposition::Default => "d",
+        yash_env::system::Disposition::Ignore => "i",
+        yash_env::system::Disposition::Catch => "c",
+    }
+}
+
+fn show_wait<S: yash_env::system::Signals>(st: yash_env::job::ProcessState) -> String {
+    use yash_env::job::{ProcessResult, ProcessState};
+    match st {
+        ProcessState::Halted(ProcessResult::Exited(e)) => format!("x{}", e.0),
+        ProcessState::Halted(ProcessResult::Signaled { signal, .. }) => format!("s{}", signame::<S>(signal)),
+        other => format!("?{other:?}").replace([' ', '\t'], ""),
+    }
+}
+
+/// every operation except `fork[…]` and `exit`; `None` = unknown operation
+async fn sig_op<S>(sys: &S, op: &str, pending: &dyn Fn() -> Vec<&'static str>) -> Option<String>
+where
+    S: yash_env::system::Sigmask
+        + yash_env::system::Sigaction
+        + yash_env::system::SendSignal
+        + yash_env::system::CaughtSignals
+        + yash_env::system::GetPid,
+{
+    use yash_env::system::{Disposition, SigmaskOp, Sigset as _};
+    let w: Vec<&str> = op.split_whitespace().collect();
+    let set_of = |l: &str| -> S::Sigset {
+        let mut set = S::Sigset::new();
+        if l != "-" {
+            for n in l.split('+') {
+                if let Some(k) = signum::<S>(n) {
+                    let _ = set.insert(k);
+                }
+            }
+        }
+        set
+    };
+    let unit = |r: Result<(), Errno>| match r {
+        Ok(()) => "ok".to_string(),
+        Err(e) => errno_name(e),
+    };
+    Some(match w.as_slice() {
+        ["blk", l] => unit(sys.sigmask(Some((SigmaskOp::Add, &set_of(l))), None).await),
+        ["unb", l] => unit(sys.sigmask(Some((SigmaskOp::Remove, &set_of(l))), None).await),
+        ["set", l] => unit(sys.sigmask(Some((SigmaskOp::Set, &set_of(l))), None).await),
+        ["act", s, d] => {
+            let disp = match *d {
+                "i" => Disposition::Ignore,
+                "c" => Disposition::Catch,
+                _ => Disposition::Default,
+            };
+            match sys.sigaction(signum::<S>(s)?, disp) {
+                Ok(old) => format!("={}", show_disp(old)),
+                Err(e) => errno_name(e),
+            }
+        }
+        ["get", s] => match sys.get_sigaction(signum::<S>(s)?) {
+            Ok(d) => format!("={}", show_disp(d)),
+            Err(e) => errno_name(e),
+        },
+        ["raise", s] => unit(sys.raise(signum::<S>(s)?).await),
+        ["kself", s] => unit(sys.kill(sys.getpid(), Some(signum::<S>(s)?)).await),
+        ["kgrp", s] => unit(sys.kill(yash_env::job::Pid::MY_PROCESS_GROUP, Some(signum::<S>(s)?)).await),
+        ["kpar", s] => unit(sys.kill(sys.getppid(), Some(signum::<S>(s)?)).await),
+        ["pend"] => format!("={}", show_names(pending())),
+        ["mask"] => {
+            let mut old = S::Sigset::new();
+            match sys.sigmask(None, Some(&mut old)).await {
+                Ok(()) => {
+                    let v = PSIGS
+                        .iter()
+                        .copied()
+                        .filter(|n| signum::<S>(n).is_some_and(|k| old.contains(k) == Ok(true)))
+                        .collect();
+                    format!("={}", show_names(v))
+                }
+                Err(e) => errno_name(e),
+            }
+        }
+        ["caught"] => {
+            let v = sys.caught_signals();
+            let names = PSIGS.iter().copied().filter(|n| signum::<S>(n).is_some_and(|k| v.contains(&k))).collect();
+            format!("={}", show_names(names))
+        }
+        _ => return None,
+    })
+}
+
+fn fork_body(op: &str) -> Option<Vec<String>> {
+    let body = op.strip_prefix("fork[")?;
+    let body = body.split(']').next().unwrap_or("");
+    Some(body.split(',').map(|s| s.trim().to_string()).filter(|s| !s.is_empty()).collect())
+}
+
+async fn final_dump<S>(sys: &S, pending: &dyn Fn() -> Vec<&'static str>) -> String
+where
+    S: yash_env::system::Sigmask
+        + yash_env::system::Sigaction
+        + yash_env::system::SendSignal
+        + yash_env::system::CaughtSignals
+        + yash_env::system::GetPid,
+{
+    let pend = sig_op(sys, "pend", pending).await.unwrap_or_default();
+    let mask = sig_op(sys, "mask", pending).await.unwrap_or_default();
+    let caught = sig_op(sys, "caught", pending).await.unwrap_or_default();
+    let mut disp = String::new();
+    for n in PSIGS {
+        disp.push_str(sig_op(sys, &format!("get {n}"), pending).await.unwrap_or_default().trim_start_matches('='));
+    }
+    format!("| pend{pend} mask{mask} caught{caught} disp={disp}")
+}
+
+struct YieldNow(bool);
+impl Future for YieldNow {
+    type Output = ();
+    fn poll(mut self: std::pin::Pin<&mut Self>, cx: &mut std::task::Context<'_>) -> std::task::Poll<()> {
+        if self.0 {
+            std::task::Poll::Ready(())
+        } else {
+            self.0 = true;
+            cx.waker().wake_by_ref();
+            std::task::Poll::Pending
+        }
+    }
+}
+
+fn virtual_pending(sys: &VirtualSystem) -> Vec<&'static str> {
+    let p = sys.current_process();
+    let set = p.pending_signals();
+    PSIGS.iter().copied().filter(|n| signum::<VirtualSystem>(n).is_some_and(|k| set.iter().any(|x| *x == k))).collect()
+}
+
+fn proc_virtual(ops: &[String]) -> String {
+    use std::cell::Cell;
+    use yash_env::system::{Exit as _, Fork as _, Wait as _};
+    let system = VirtualSystem::new();
+    let state = Rc::clone(&system.state);
+    let main_pid = system.process_id;
+    let executor = yash_executor::Executor::new();
+    state.borrow_mut().executor = Some(Rc::new(executor.spawner()));
+    let toks: Rc<RefCell<Vec<String>>> = Rc::new(RefCell::new(vec![]));
+    let done = Rc::new(Cell::new(false));
+    let (toks2, done2, ops2) = (Rc::clone(&toks), Rc::clone(&done), ops.to_vec());
+    let main = async move {
+        let sys = system;
+        for op in &ops2 {
+            if let Some(cops) = fork_body(op) {
+                let out: Rc<RefCell<Vec<String>>> = Rc::new(RefCell::new(vec![]));
+                let (res, _) = sys.run_in_child_process(
+                    (Rc::clone(&out), cops),
+                    async move |csys: VirtualSystem, (out, cops): (Rc<RefCell<Vec<String>>>, Vec<String>)| {
+                        let mut code = 0;
+                        for cop in &cops {
+                            if let Some(n) = cop.strip_prefix("exit ") {
+                                code = n.trim().parse().unwrap_or(0);
+                                break;
+                            }
+                            let c2 = csys.clone();
+                            let t = sig_op(&csys, cop, &move || virtual_pending(&c2)).await;
+                            out.borrow_mut().push(t.unwrap_or_else(|| "?".into()));
+                        }
+                        csys.exit(yash_env::semantics::ExitStatus(code)).await;
+                    },
+                );
+                let tok = match res {
+                    Err(e) => errno_name(e),
+                    Ok(pid) => {
+                        let mut rounds = 0;
+                        let st = loop {
+                            match sys.wait(pid) {
+                                Ok(Some((_, st))) => break show_wait::<VirtualSystem>(st),
+                                Ok(None) => {
+                                    rounds += 1;
+                                    if rounds > 10_000 {
+                                        break "STUCK".to_string();
+                                    }
+                                    YieldNow(false).await
+                                }
+                                Err(e) => break errno_name(e),
+                            }
+                        };
+                        format!("{{{}}}{st}", out.borrow().join(","))
+                    }
+                };
+                toks2.borrow_mut().push(tok);
+            } else {
+                let s2 = sys.clone();
+                let t = sig_op(&sys, op, &move || virtual_pending(&s2)).await;
+                toks2.borrow_mut().push(t.unwrap_or_else(|| "?".into()));
+            }
+        }
+        let s2 = sys.clone();
+        let fin = final_dump(&sys, &move || virtual_pending(&s2)).await;
+        toks2.borrow_mut().push(fin);
+        done2.set(true);
+    };
+    // SAFETY: single-threaded, as in yash_env::test_helper::in_virtual_system
+    unsafe { executor.spawn_pinned(Box::pin(main)) };
+    let mut rounds = 0;
+    loop {
+        executor.run_until_stalled();
+        rounds += 1;
+        if done.get() || executor.wake_count() == 0 || rounds > 100_000 {
+            break;
+        }
+    }
+    let mut v = toks.borrow().clone();
+    if !done.get() {
+        let st = state.borrow().processes.get(&main_pid).map(|p| p.state());
+        match st {
+            Some(st) if !st.is_alive() => v.push(format!("DIED:{}", show_wait::<VirtualSystem>(st))),
+            _ => v.push("STUCK".to_string()),
+        }
+    }
+    v.join(" ")
+}
+
+fn raw_write(text: &str) {
+    let b = text.as_bytes();
+    let mut off = 0;
+    while off < b.len() {
+        // SAFETY: plain write(2) on the result pipe
+        let n = unsafe { libc::write(RESULT_FD, b[off..].as_ptr().cast(), b.len() - off) };
+        if n <= 0 {
+            break;
+        }
+        off += n as usize;
+    }
+}
+
+fn real_pending() -> Vec<&'static str> {
+    let mut set = std::mem::MaybeUninit::<libc::sigset_t>::uninit();
+    // SAFETY: sigpending fills the set
+    unsafe {
+        libc::sigemptyset(set.as_mut_ptr());
+        libc::sigpending(set.as_mut_ptr());
+    }
+    PSIGS
+        .iter()
+        .copied()
+        .filter(|n| signum::<RealSystem>(n).is_some_and(|k| unsafe { libc::sigismember(set.as_ptr(), k.as_raw()) } == 1))
+        .collect()
+}
+
+/// body of the real process P0 (already forked off the harness); writes tokens to the result pipe
+fn proc_real_p0(ops: &[String]) {
+    use yash_env::system::Wait as _;
+    // SAFETY: own process group (so that kill(0, …) reaches P0 and its child only), default dispositions,
+    // empty mask, a watchdog alarm
+    unsafe {
+        libc::setpgid(0, 0);
+        let mut empty = std::mem::MaybeUninit::<libc::sigset_t>::uninit();
+        libc::sigemptyset(empty.as_mut_ptr());
+        libc::sigprocmask(libc::SIG_SETMASK, empty.as_ptr(), std::ptr::null_mut());
+        for n in PSIGS {
+            libc::signal(signum::<RealSystem>(n).unwrap().as_raw(), libc::SIG_DFL);
+        }
+        libc::alarm(20);
+    }
+    // SAFETY: the only RealSystem instance of this process
+    let sys = unsafe { RealSystem::new() };
+    for op in ops {
+        if let Some(cops) = fork_body(op) {
+            raw_write("{");
+            // SAFETY: single-threaded process
+            let pid = unsafe { libc::fork() };
+            if pid == 0 {
+                unsafe { libc::alarm(20) };
+                // SAFETY: the only RealSystem instance of the child process
+                let csys = unsafe { RealSystem::new() };
+                let mut code = 0;
+                for cop in &cops {
+                    if let Some(n) = cop.strip_prefix("exit ") {
+                        code = n.trim().parse().unwrap_or(0);
+                        break;
+                    }
+                    let t = futures_executor::block_on(sig_op(&csys, cop, &real_pending));
+                    raw_write(&format!("{},", t.unwrap_or_else(|| "?".into())));
+                }
+                unsafe { libc::_exit(code) };
+            }
+            let st = loop {
+                match sys.wait(yash_env::job::Pid(pid)) {
+                    Ok(Some((_, st))) => break show_wait::<RealSystem>(st),
+                    Ok(None) | Err(Errno::EINTR) => unsafe {
+                        libc::usleep(50);
+                    },
+                    Err(e) => break errno_name(e),
+                }
+            };
+            raw_write(&format!("}}{st} "));
+        } else {
+            let t = futures_executor::block_on(sig_op(&sys, op, &real_pending));
+            raw_write(&format!("{} ", t.unwrap_or_else(|| "?".into())));
+        }
+    }
+    raw_write(&futures_executor::block_on(final_dump(&sys, &real_pending)));
+}
+
+fn proc_real(ops: &[String]) -> String {
+    let mut pipe_fds = [0i32; 2];
+    // SAFETY: plain pipe(2)
+    assert_eq!(unsafe { libc::pipe(pipe_fds.as_mut_ptr()) }, 0);
+    use std::io::Write as _;
+    std::io::stdout().flush().unwrap();
+    // SAFETY: the harness is single-threaded; the child leaves through _exit
+    let pid = unsafe { libc::fork() };
+    assert!(pid >= 0, "fork failed");
+    if pid == 0 {
+        unsafe {
+            libc::dup2(pipe_fds[1], RESULT_FD);
+            libc::close(pipe_fds[0]);
+            libc::close(pipe_fds[1]);
+        }
+        let r = std::panic::catch_unwind(std::panic::AssertUnwindSafe(|| proc_real_p0(ops)));
+        if r.is_err() {
+            raw_write(" PANIC");
+        }
+        unsafe { libc::_exit(0) };
+    }
+    unsafe { libc::close(pipe_fds[1]) };
+    let mut text = String::new();
+    {
+        use std::os::fd::FromRawFd as _;
+        // SAFETY: read end of the pipe created above, owned from here on
+        let mut f = unsafe { std::fs::File::from_raw_fd(pipe_fds[0]) };
+        let _ = f.read_to_string(&mut text);
+    }
+    let mut status = 0;
+    unsafe { libc::waitpid(pid, &mut status, 0) };
+    let mut text = text.replace(",}", "}").trim().to_string();
+    if libc::WIFSIGNALED(status) {
+        let n = libc::WTERMSIG(status);
+        let name = PSIGS
+            .iter()
+            .find(|s| signum::<RealSystem>(s).is_some_and(|k| k.as_raw() == n))
+            .map(|s| s.to_string())
+            .unwrap_or_else(|| n.to_string());
+        if !text.is_empty() {
+            text.push(' ');
+        }
+        text.push_str(&format!("DIED:s{name}"));
+    }
+    text
+}
+
+// ---- generator of process/signal cases, with a small simulation of the POSIX rules so that it can keep
+// ---- the sequences deterministic on a real kernel (see the comments at each restriction)
+
+#[derive(Clone)]
+struct SimProc {
+    mask: [bool; 7],
+    pend: [bool; 7],
+    disp: [u8; 7], // b'd', b'i', b'c'
+    caught: [bool; 7],
+    alive: bool,
+}
+
+const DEFAULT_IGNORED: [bool; 7] = [false, false, false, false, false, true, true];
+
+impl SimProc {
+    fn new() -> SimProc {
+        SimProc { mask: [false; 7], pend: [false; 7], disp: [b'd'; 7], caught: [false; 7], alive: true }
+    }
+    fn deadly(&self, s: usize) -> bool {
+        self.disp[s] == b'd' && !DEFAULT_IGNORED[s]
+    }
+    fn ignoring(&self, s: usize) -> bool {
+        self.disp[s] == b'i' || (self.disp[s] == b'd' && DEFAULT_IGNORED[s])
+    }
+    fn deliver(&mut self, s: usize) {
+        if self.disp[s] == b'c' {
+            self.caught[s] = true;
+        } else if self.deadly(s) {
+            self.alive = false;
+        }
+    }
+    fn generate(&mut self, s: usize) {
+        if !self.alive {
+        } else if self.mask[s] {
+            self.pend[s] = true;
+        } else {
+            self.deliver(s);
+        }
+    }
+    fn flush(&mut self) {
+        for s in 0..7 {
+            if self.alive && self.pend[s] && !self.mask[s] {
+                self.pend[s] = false;
+                self.deliver(s);
+            }
+        }
+    }
+    fn would_die_on(&self, s: usize) -> bool {
+        !self.mask[s] && self.deadly(s)
+    }
+    fn fork(&self) -> SimProc {
+        SimProc { mask: self.mask, pend: [false; 7], disp: self.disp, caught: [false; 7], alive: true }
+    }
+}
+
+fn names_of(set: &[bool; 7]) -> String {
+    let v: Vec<&str> = (0..7).filter(|i| set[*i]).map(|i| PSIGS[i]).collect();
+    if v.is_empty() { "-".to_string() } else { v.join("+") }
+}
+
+/// one operation for process `me` (`parent` = Some while `me` is the forked child); None = nothing suitable
+fn gen_sig_op(rng: &mut Rng, me: &mut SimProc, parent: Option<&mut SimProc>, allow_kgrp: bool) -> Option<String> {
+    let s = rng.below(7);
+    let name = PSIGS[s];
+    let in_child = parent.is_some();
+    Some(match rng.below(100) {
+        0..=13 => {
+            let mut set = [false; 7];
+            for _ in 0..1 + rng.below(3) {
+                set[rng.below(7)] = true;
+            }
+            for i in 0..7 {
+                me.mask[i] |= set[i];
+            }
+            format!("blk {}", names_of(&set))
+        }
+        14..=28 => {
+            // SIG_UNBLOCK / SIG_SETMASK.  Two pending signals that would both terminate the process are never
+            // unblocked together: which one is reported depends on the signal numbering, which POSIX leaves open.
+            let setmask = rng.chance(1, 3);
+            let mut set = [false; 7];
+            for _ in 0..1 + rng.below(3) {
+                set[rng.below(7)] = true;
+            }
+            let mut new_mask = me.mask;
+            for i in 0..7 {
+                new_mask[i] = if setmask { set[i] } else { me.mask[i] && !set[i] };
+            }
+            let mut deadly_seen = false;
+            for i in 0..7 {
+                if me.pend[i] && !new_mask[i] && me.deadly(i) {
+                    if deadly_seen {
+                        new_mask[i] = true;
+                        set[i] = setmask;
+                    }
+                    deadly_seen = true;
+                }
+            }
+            if deadly_seen && !rng.chance(1, if in_child { 3 } else { 8 }) {
+                return None;
+            }
+            me.mask = new_mask;
+            me.flush();
+            format!("{} {}", if setmask { "set" } else { "unb" }, names_of(&set))
+        }
+        29..=45 => {
+            let d = *rng.pick(&[b'd', b'i', b'c', b'c']);
+            if name == "CHLD" && d == b'i' {
+                return None; // SIG_IGN for SIGCHLD makes the kernel reap children itself: `wait` is not comparable
+            }
+            let mut probe = me.clone();
+            probe.disp[s] = d;
+            if me.pend[s] && probe.ignoring(s) {
+                return None; // would discard a pending signal: simulator divergence D15 (see notes/C19.md)
+            }
+            me.disp[s] = d;
+            format!("act {name} {}", d as char)
+        }
+        46..=49 => format!("get {name}"),
+        50..=70 => {
+            if me.would_die_on(s) && !rng.chance(1, if in_child { 5 } else { 14 }) {
+                return None;
+            }
+            let kind = match (rng.below(10), &parent) {
+                (0..=5, _) => "raise",
+                (6..=7, _) => "kself",
+                (8, Some(p)) if !p.would_die_on(s) => "kpar",
+                // kill(0, …) also reaches terminated (reaped) members of the group on the simulator, changing their
+                // state and sending the parent another SIGCHLD: divergence D16 (see notes/C19.md); only used
+                // while no terminated child exists
+                (9, Some(p)) if allow_kgrp && !p.would_die_on(s) => "kgrp",
+                (9, None) if allow_kgrp => "kgrp",
+                _ => "raise",
+            };
+            match kind {
+                "kpar" => parent.unwrap().generate(s),
+                "kgrp" => {
+                    if let Some(p) = parent {
+                        p.generate(s);
+                    }
+                    me.generate(s)
+                }
+                _ => me.generate(s),
+            }
+            format!("{kind} {name}")
+        }
+        71..=80 => "pend".to_string(),
+        81..=86 => "mask".to_string(),
+        _ => {
+            me.caught = [false; 7];
+            "caught".to_string()
+        }
+    })
+}
+
+fn gen_proc(rng: &mut Rng, thorough: bool) -> String {
+    let mut p0 = SimProc::new();
+    let mut ops: Vec<String> = vec![];
+    let n = 5 + rng.below(if thorough { 22 } else { 14 });
+    let mut forks = 0;
+    while ops.len() < n && p0.alive {
+        if rng.chance(1, 5) && forks < 4 {
+            forks += 1;
+            if p0.caught.iter().any(|c| *c) {
+                // an uncollected catch record is copied into the child by RealSystem (user-space record):
+                // divergence D14 (see notes/C19.md); collect it first
+                p0.caught = [false; 7];
+                ops.push("caught".to_string());
+            }
+            if rng.chance(1, 2) {
+                // make sure the parent often has a blocked, pending signal when it forks
+                let s = rng.below(7);
+                p0.mask[s] = true;
+                p0.generate(s);
+                ops.push(format!("blk {}", PSIGS[s]));
+                ops.push(format!("raise {}", PSIGS[s]));
+            }
+            let mut child = p0.fork();
+            let mut cops: Vec<String> = vec![];
+            let m = 1 + rng.below(8);
+            // the child starts by looking at what it inherited
+            for probe in ["pend", "mask", "caught"] {
+                if rng.chance(2, 3) {
+                    cops.push(probe.to_string());
+                }
+            }
+            let mut tries = 0;
+            while cops.len() < m + 3 && child.alive && tries < 60 {
+                tries += 1;
+                if let Some(op) = gen_sig_op(rng, &mut child, Some(&mut p0), forks == 1) {
+                    cops.push(op);
+                }
+            }
+            if child.alive && rng.chance(1, 2) {
+                cops.push(format!("exit {}", rng.below(4)));
+            }
+            p0.generate(5); // SIGCHLD
+            ops.push(format!("fork[{}]", cops.join(", ")));
+        } else if let Some(op) = gen_sig_op(rng, &mut p0, None, forks == 0) {
+            ops.push(op);
+        }
+    }
+    format!("P sig; {}", ops.join("; "))
+}
+
+fn run_proc_case(case: &str) {
+    let ops: Vec<String> = case.split(';').skip(1).map(|s| s.trim().to_string()).filter(|s| !s.is_empty()).collect();
+    let v = guarded(|| proc_virtual(&ops));
+    let r = proc_real(&ops);
+    let oracle = if v == r { "ok".to_string() } else { format!("FAIL:real-differs({})", first_difference(&v, &r)) };
+    if std::env::var("C19_IMPL").as_deref() == Ok("real") {
+        emit(case, &r, "-");
+        return;
+    }
+    emit(case, &v, &oracle);
+}
+
 // ------------------------------------------------------------------------------------------
 // shell leg
 
@@ -1299,6 +1911,8 @@ fn run_case(case: &str) {
         let tag = it.next().unwrap_or("clean");
         let script = it.next().and_then(dec_str).unwrap_or_default();
         run_shell_case(tag, &script);
+    } else if case.starts_with("P ") {
+        run_proc_case(case);
     } else {
         run_seq_case(case);
     }
@@ -1338,6 +1952,13 @@ fn main() {
         let case = gen_seq(&mut rng, class, thorough);
         if mine(&mut index) {
             run_seq_case(&case);
+        }
+    }
+    let n_proc = if thorough { 60_000 } else { 1_500 };
+    for _ in 0..n_proc {
+        let case = gen_proc(&mut rng, thorough);
+        if mine(&mut index) {
+            run_proc_case(&case);
         }
     }
     let n_sh = if thorough { 12_000 } else { 300 };
